@@ -380,6 +380,9 @@ pub struct Case {
     pub data: Vec<u8>,
     pub expect: Option<String>,
     pub tok: Option<(usize, usize, usize)>,
+    /// `ns=<count>`: run only that many of the non-one-shot schedules (which ones rotates with
+    /// the input length); used by the scale cases with more than 2^19 items
+    pub ns: Option<usize>,
 }
 
 impl Case {
@@ -397,6 +400,7 @@ impl Case {
                 let v: Vec<usize> = s.split(':').map(|x| x.parse().unwrap()).collect();
                 (v[0], v[1], v[2])
             }),
+            ns: f.opt("ns").map(|s| s.parse().unwrap()),
         }
     }
     pub fn line(&self) -> String {
@@ -498,7 +502,12 @@ pub fn run_case(line: &str) -> (String, Vec<String>) {
 
     // ---- C01: every schedule gives the same observation
     let mut rng = Rng::new(delivered.len() as u64 * 31 + delivered.first().copied().unwrap_or(0) as u64);
-    let scheds = schedules(&mut rng, delivered.len());
+    let mut scheds = schedules(&mut rng, delivered.len());
+    if let Some(ns) = c.ns {
+        let others = scheds.split_off(1);
+        let m = others.len();
+        scheds.extend(others.into_iter().enumerate().filter(|(i, _)| (i + m - delivered.len() % m) % m < ns).map(|(_, s)| s));
+    }
     let heap0 = heap_mark();
     let base = run_parser(&c.fmt, &c.ty, c.cfg, mk(scheds[0].1.clone()), scheds[0].2);
     let (peak, largest) = heap_peak_since(heap0);
